@@ -12,11 +12,12 @@ import Nq.Lemmas.RewriteCase
 import Nq.Lemmas.RewriteTodo
 import Nq.Lemmas.RewriteCtl
 import Nq.Lemmas.RewriteDaemon
+import Nq.Lemmas.RewriteIO
 
 namespace Nq.Props.C10
 open Nq Nq.Rewrite Nq.Route
 open Nq.Lemmas.RewriteMap Nq.Lemmas.RewriteSpec Nq.Lemmas.RewriteVerp Nq.Lemmas.RewriteCase Nq.Lemmas.RewriteTodo
-open Nq.Lemmas.RewriteCtl Nq.Lemmas.RewriteDaemon
+open Nq.Lemmas.RewriteCtl Nq.Lemmas.RewriteDaemon Nq.Lemmas.RewriteIO
 
 /-! ### the routing rule -/
 
@@ -480,5 +481,267 @@ example : specTodo exCfg [84, 120, 64, 97, 0, 90, 113, 0] = none ∧ specTodo ex
     specTodo exCfg [84, 120, 64, 97, 0, 70, 115, 0, 84, 121, 64, 122, 0, 117, 49, 0] =
       some ⟨[70, 115, 0], [84, 120, 64, 97, 0], [84, 121, 64, 122, 0]⟩ := by
   decide
+
+/-! ## Extension round (session 4): control-file I/O errors, one instant, byte_rchr loop, comm_write layout -/
+
+/-- **control.c readers under faults.** `control_readfile` returns -1 exactly when the fault strikes a
+call it makes (`open_read` failing with errno ≠ ENOENT, a `read()` it really issues - the k-th of the
+⌈n/64⌉+1 -, a stralloc call) and otherwise behaves as on a readable directory; same for
+`control_readline` (reads only up to the first LF; no stralloc call on an absent file). -/
+theorem C10_io_readers (flt : Option RdFault) (f me : Option Bytes) (fm : Bool) :
+    readfileIO flt f me fm = (if fileHits flt f then Rd.err else Rd.ofOpt (readfile f me fm)) ∧
+    readlineIO flt f = (if lineHits flt f then Rd.err else Rd.ofOpt (readline f)) :=
+  ⟨rfl, rfl⟩
+
+/-- **start-up refuses to run on any control-file I/O error**: with an arbitrary combination of failing
+calls, `main()` gets past `getcontrols()`/`chdir("queue")` iff no error strikes a call start-up needs,
+and then the state is exactly that of the fault-free start. -/
+theorem C10_start_io (io : IOEnv) (f : Files) :
+    startIO io f = if strikesStart io f then none else start f :=
+  startIO_eq io f
+
+/-- … in the documents' terms (NUL-free control directory): it starts iff `specStartIO` is defined -/
+theorem C10_start_io_spec (io : IOEnv) (f : Files) (h : nulFreeB f = true) :
+    (startIO io f).isSome = (specStartIO io f).isSome := by
+  rw [startIO_eq]; unfold specStartIO
+  cases strikesStart io f
+  · simpa using start_iff_spec f h
+  · rfl
+
+/-- **a failing re-read keeps the old tables, whole**: `regetcontrols()` under any combination of
+failing calls installs what the fault-free re-read installs, or - when an error strikes
+`chdir(auto_qmail)`, the reader of control/locals or the reader of control/virtualdomains (also after
+control/locals was read successfully) - nothing at all. Failing `constmap_init`/`stralloc_copy`/
+`chdir("queue")` (retried until they succeed) change nothing. -/
+theorem C10_reget_io (io : IOEnv) (me : Option Bytes) (old : RawCfg) (f : Files) :
+    regetIO io me old f = if strikesReread io f then old else reget me old f :=
+  regetIO_eq io me old f
+
+/-- the code never mixes: after `regetcontrols()` (failing or not) `locals` and `vdoms` are BOTH the old
+buffers or BOTH what the readers produce from the directory on disk -/
+theorem C10_reget_atomic (io : IOEnv) (me : Option Bytes) (old : RawCfg) (f : Files) :
+    regetIO io me old f = old ∨
+      tablesAt me f = some ((regetIO io me old f).locals, (regetIO io me old f).vdoms) :=
+  regetIO_tables io me old f
+
+/-- **one instant.** After start-up under any environment and any history of edits, SIGHUPs, loop
+tops, re-reads that fail in any way (`topIO io`) and messages: every message is preprocessed with
+`locals` AND `virtualdomains` read off ONE control directory - the start-up one, or the one on disk at
+some earlier loop top at which a HUP was pending - together with the start-up envnoathost/percenthack.
+Never locals from one instant and virtualdomains from another. -/
+theorem C10_one_instant (io0 : IOEnv) (f0 : Files) (d0 dn : Daemon) (pre post : List EvF)
+    (todo : Bytes) (out : Option TodoOut)
+    (hs : startIO io0 f0 = some d0)
+    (h : acceptFAll d0 (pre ++ .ev (.msg todo out) :: post) = some dn) :
+    ∃ f ∈ f0 :: servedAt f0 false pre, ∃ l v, tablesAt (readline f0.me) f = some (l, v) ∧
+      out = todoDo ({ d0.cfg with locals := l, vdoms := v } : RawCfg).htLookups d0.cfg.env todo := by
+  have hst : start f0 = some d0 := by
+    rw [startIO_eq] at hs; split at hs
+    · simp at hs
+    · exact hs
+  have hd0 : d0.me = readline f0.me ∧ d0.files = f0 ∧ d0.flagread = false := by
+    unfold start at hst
+    cases hg : getcontrols f0 with
+    | none => rw [hg] at hst; simp at hst
+    | some c => rw [hg] at hst; simp only [Option.some.injEq] at hst; subst hst; exact ⟨rfl, rfl, rfl⟩
+  rw [acceptFAll_append] at h
+  cases h1 : acceptFAll d0 pre with
+  | none => rw [h1] at h; simp at h
+  | some d1 =>
+    rw [h1] at h
+    simp only [Option.bind_some, acceptFAll, acceptF, accept] at h
+    by_cases hq : todoDo d1.cfg.htLookups d1.cfg.env todo = out
+    · obtain ⟨f, hf, ht⟩ := one_instant_all pre d0 d1 [f0] ⟨f0, by simp, start_tables f0 d0 hst⟩ h1
+      obtain ⟨a1, a2, a3⟩ := acceptFAll_fixed pre d0 d1 h1
+      rw [hd0.2.1, hd0.2.2] at hf
+      refine ⟨f, by simpa using hf, d1.cfg.locals, d1.cfg.vdoms, ?_, ?_⟩
+      · rw [← hd0.1, ← a1]; exact ht
+      · have : ({ d0.cfg with locals := d1.cfg.locals, vdoms := d1.cfg.vdoms } : RawCfg) = d1.cfg := by
+          show (⟨d0.cfg.env, d0.cfg.ph, d1.cfg.locals, d1.cfg.vdoms⟩ : RawCfg) = d1.cfg
+          rw [← a2, ← a3]
+        rw [this, ← a2]; exact hq.symm
+    · simp [hq] at h
+
+/-- **every trace with failing re-reads meets the documented behaviour, end to end**: `C10_trace` for the
+monitor extended by `topIO io` (a loop top during which any combination of calls fails), from a
+start-up under any environment. `specTraceF` keeps the documented configuration when an error strikes
+the re-read and otherwise is `specTrace`. -/
+theorem C10_trace_io (io0 : IOEnv) (f0 : Files) (d0 dn : Daemon) (es : List EvF)
+    (hs : startIO io0 f0 = some d0) (h : acceptFAll d0 es = some dn) :
+    specTraceF f0 (specStart f0) es = true := by
+  have hst : start f0 = some d0 := by
+    rw [startIO_eq] at hs; split at hs
+    · simp at hs
+    · exact hs
+  cases hsp : specStart f0 with
+  | none => simp [specTraceF]
+  | some s0 =>
+    exact sim_traceF f0 (fun c hnd r => C10_spec c r hnd) es d0 dn s0 (sim_start f0 d0 s0 hst hsp) h
+
+/-- **one instant, in the documents' terms** (the ORACLE `judgeOneInstant` of `drv_c10`): within the
+stated domain (`specRunF` defined: no control file with a NUL byte was read; no repeated
+virtualdomains key in force) the outputs of every message are what `specTodo` prescribes under the
+start-up envnoathost/percenthack and the documented locals AND virtualdomains of ONE control directory
+among start-up's and those on disk at the served HUPs. -/
+theorem C10_one_instant_spec (io0 : IOEnv) (f0 : Files) (d0 dn : Daemon) (s0 s : SpecD) (pre : List EvF)
+    (todo : Bytes) (out : Option TodoOut)
+    (hs : startIO io0 f0 = some d0) (hsp : specStart f0 = some s0)
+    (h : acceptFAll d0 (pre ++ [.ev (.msg todo out)]) = some dn)
+    (hr : specRunF f0 s0 pre = some s) (hnd : noDupKeys s.cfg.vdoms = true) :
+    judgeOneInstant s0.cfg f0.me (f0 :: servedAt f0 false pre) todo out = true := by
+  have hst : start f0 = some d0 := by
+    rw [startIO_eq] at hs; split at hs
+    · simp at hs
+    · exact hs
+  have hroute : ∀ c : Cfg, noDupKeys c.vdoms = true → ∀ r, rewrite c r = routeSpec c r :=
+    fun c hnd r => C10_spec c r hnd
+  have hsim0 := sim_start f0 d0 s0 hst hsp
+  rw [acceptFAll_append] at h
+  cases h1 : acceptFAll d0 pre with
+  | none => rw [h1] at h; simp at h
+  | some d1 =>
+    rw [h1] at h
+    simp only [Option.bind_some, acceptFAll] at h
+    cases h2 : acceptF d1 (.ev (.msg todo out)) with
+    | none => rw [h2] at h; simp at h
+    | some d2 =>
+      have hsim1 := sim_runF f0 hroute pre d0 d1 s0 s hsim0 h1 hr
+      have hj := (sim_stepF f0 d1 d2 s (.ev (.msg todo out)) hsim1 (hroute s.cfg) h2).1
+      simp only [specJudgeF, specJudge, hnd, Bool.not_true, Bool.false_or, decide_eq_true_eq] at hj
+      -- the start-up state: tables of f0, files f0, nothing pending
+      have hs0 : s0.files = f0 ∧ s0.pending = false ∧ specTables f0.me f0 = some (s0.cfg.locals, s0.cfg.vdoms) := by
+        unfold specStart at hsp
+        split at hsp
+        · cases hc : specCfg f0 with
+          | none => rw [hc] at hsp; simp at hsp
+          | some c =>
+            rw [hc] at hsp; simp only [Option.some.injEq] at hsp; subst hsp
+            refine ⟨rfl, rfl, ?_⟩
+            unfold specCfg at hc
+            unfold specTables
+            cases hl : specLocals f0 with
+            | none => rw [hl] at hc; simp at hc
+            | some l =>
+              rw [hl] at hc; simp only [Option.some.injEq] at hc; subst hc
+              rfl
+        · simp at hsp
+      obtain ⟨e1, e2, f, hf, ht⟩ := spec_one_instant f0 pre s0 s [f0] ⟨f0, by simp, hs0.2.2⟩ hr
+      rw [hs0.1, hs0.2.1] at hf
+      unfold judgeOneInstant
+      rw [List.any_eq_true]
+      refine ⟨f, by simpa using hf, ?_⟩
+      rw [ht]
+      simp only [decide_eq_true_eq]
+      rw [hj]
+      congr 1
+      cases hc : s.cfg
+      cases hc0 : s0.cfg
+      simp_all
+
+/-- **byte_rchr.c as written** (one forward pass that remembers the last match, `if (!u) u = t`) returns
+what the model's `rchr` - index of the last occurrence, or the length - returns. -/
+theorem C10_rchr_loop (c : Byte) (s : Bytes) : rchrC c s = rchr c s := by
+  have key : ∀ (s : Bytes) (pos : Nat) (u : Option Nat),
+      rchrScan c s pos u = if rchr c s < s.length then some (pos + rchr c s) else u := by
+    intro s
+    induction s with
+    | nil => intro pos u; simp [rchrScan, rchr]
+    | cons x r ih =>
+      intro pos u
+      simp only [rchrScan, rchr, List.length_cons]
+      rw [ih]
+      by_cases h : rchr c r < r.length
+      · simp only [h, if_true]
+        rw [if_pos (by omega)]; congr 1; omega
+      · simp only [h, if_false]
+        by_cases hx : x = c
+        · simp [hx]
+        · simp [hx]
+  unfold rchrC
+  rw [key]
+  have := rchr_le c s
+  by_cases h : rchr c s < s.length
+  · simp [h]
+  · simp only [h, if_false]; omega
+
+/-- `senderadd` introduces no NUL -/
+theorem C10_senderadd_nulfree (sender recip : Bytes) (hs : NUL ∉ sender) (hr : NUL ∉ recip) :
+    NUL ∉ senderadd sender recip := by
+  unfold senderadd
+  simp only
+  split
+  · split
+    · intro hm
+      simp only [List.mem_append, List.mem_cons] at hm
+      rcases hm with ((hm | hm) | hm | hm) | hm | hm
+      · exact hs (List.mem_of_mem_take hm)
+      · exact hr (List.mem_of_mem_take hm)
+      · exact absurd hm (by decide)
+      · exact hr (List.mem_of_mem_drop hm)
+      · exact absurd hm (by decide)
+      · exact hs (List.mem_of_mem_drop (List.mem_of_mem_take hm))
+    · exact hs
+  · exact hs
+
+/-- **`comm_write` layout**: the command written to a spawner is the delivery number followed by exactly
+three NUL-terminated fields - split file name, sender after VERP expansion, recipient - and splits
+back into them at its NULs (NUL-free inputs; nothing dropped, merged or reordered). -/
+theorem C10_comm_layout (delnum : Byte) (fn sender recip : Bytes)
+    (hf : NUL ∉ fn) (hs : NUL ∉ sender) (hr : NUL ∉ recip) :
+    commWrite delnum fn sender recip = delnum :: encode [fn, senderadd sender recip, recip] ∧
+    chunks (commWrite delnum fn sender recip).tail = [fn, senderadd sender recip, recip] := by
+  have e : commWrite delnum fn sender recip = delnum :: encode [fn, senderadd sender recip, recip] := by
+    simp [commWrite, encode]
+  refine ⟨e, ?_⟩
+  rw [e]
+  have := chunks_encode [fn, senderadd sender recip, recip] [] (by
+    intro r hr'
+    simp only [List.mem_cons, List.mem_nil_iff, or_false] at hr'
+    rcases hr' with h | h | h
+    · rw [h]; exact hf
+    · rw [h]; exact C10_senderadd_nulfree sender recip hs hr
+    · rw [h]; exact hr) (by simp)
+  simpa using this
+
+/-! #### non-vacuity of the I/O-error theorems (me "m\n", locals "a\n" resp. "b\n", virtualdomains "d:t\n") -/
+def exG (l : Byte) : Files := ⟨some [109, 10], none, some [l, 10], none, some [100, 58, 116, 10]⟩
+
+/-- start-up: a failing first read of control/me, a failing open of control/percenthack (which does not
+exist), a failing chdir("queue") are all fatal; a failing third read of the 2-byte control/locals does not
+happen (it takes two reads) and the daemon starts -/
+example : startIO { me := some (.readErr 0) } (exG 97) = none ∧ startIO { ph := some .openErr } (exG 97) = none ∧
+    startIO { chdirQueue := true } (exG 97) = none ∧
+    (startIO { locals := some (.readErr 2) } (exG 97)).isSome = true ∧ (start (exG 97)).isSome = true := by decide
+/-- re-read: control/locals ("b") is read, then the open of control/virtualdomains fails: the OLD locals stay -/
+example : regetIO { vdoms := some .openErr } (some [109]) ⟨[109], [], [97, 0], []⟩ (exG 98) = ⟨[109], [], [97, 0], []⟩ ∧
+    regetIO { vdoms := some (.readErr 1) } (some [109]) ⟨[109], [], [97, 0], []⟩ (exG 98) = ⟨[109], [], [97, 0], []⟩ ∧
+    regetIO { vdoms := some (.readErr 2), cmNomem := true, chdirQueue := true } (some [109]) ⟨[109], [], [97, 0], []⟩ (exG 98) =
+      ⟨[109], [], [98, 0], [100, 58, 116, 0]⟩ := by decide
+/-- the calls of that re-read: chdir, open/read/read/close of locals, open/read/read/close of virtualdomains, chdir -/
+example : (List.range 11).map (rereadCall (some [109]) (exG 98)) =
+    [.chdirHome, .openf .locals, .readf .locals 0, .readf .locals 1, .closef .locals,
+     .openf .vdoms, .readf .vdoms 0, .readf .vdoms 1, .closef .vdoms, .chdirQueue, .past] := by decide
+/-- a trace: HUP with locals "b" whose re-read fails at control/virtualdomains; a message to x@b and x@c
+("Fs\0Tx@b\0Tx@c\0") is then still routed by the start-up tables (both remote) - accepted; the outputs
+under locals "b" are rejected; a second, undisturbed HUP installs "b" -/
+example : ((startIO {} (exG 97)).bind (fun d => acceptFAll d
+      [.ev (.edit (exG 98)), .ev .hup, .topIO { vdoms := some .openErr },
+       .ev (.msg exTodo (some ⟨[70, 115, 0], [], [84, 120, 64, 98, 0, 84, 120, 64, 99, 0]⟩)),
+       .ev .hup, .topIO {},
+       .ev (.msg exTodo (some ⟨[70, 115, 0], [84, 120, 64, 98, 0], [84, 120, 64, 99, 0]⟩))])).isSome = true ∧
+    ((startIO {} (exG 97)).bind (fun d => acceptFAll d
+      [.ev (.edit (exG 98)), .ev .hup, .topIO { vdoms := some .openErr },
+       .ev (.msg exTodo (some ⟨[70, 115, 0], [84, 120, 64, 98, 0], [84, 120, 64, 99, 0]⟩))])).isSome = false := by decide
+/-- the documented predicates are not trivially true: outputs under locals "b" after the failed re-read are judged false -/
+example : specTraceF (exG 97) (specStart (exG 97))
+      [.ev (.edit (exG 98)), .ev .hup, .topIO { vdoms := some .openErr },
+       .ev (.msg exTodo (some ⟨[70, 115, 0], [84, 120, 64, 98, 0], [84, 120, 64, 99, 0]⟩))] = false ∧
+    judgeOneInstant ⟨[109], [], [⟨[97], []⟩], [⟨[100], [116]⟩]⟩ (some [109, 10]) [exG 97] exTodo
+      (some ⟨[70, 115, 0], [84, 120, 64, 98, 0], [84, 120, 64, 99, 0]⟩) = false ∧
+    judgeOneInstant ⟨[109], [], [⟨[97], []⟩], [⟨[100], [116]⟩]⟩ (some [109, 10]) [exG 97, exG 98] exTodo
+      (some ⟨[70, 115, 0], [84, 120, 64, 98, 0], [84, 120, 64, 99, 0]⟩) = true := by decide
+/-- byte_rchr on "a@b@c" and on "abc"; comm_write of delivery 7, "0/5", sender "s", recipient "r@d" -/
+example : rchrC 64 [97, 64, 98, 64, 99] = 3 ∧ rchrC 64 [97, 98, 99] = 3 := by decide
+example : commWrite 7 [48, 47, 53] [115] [114, 64, 100] = [7, 48, 47, 53, 0, 115, 0, 114, 64, 100, 0] := by decide
 
 end Nq.Props.C10
